@@ -45,11 +45,82 @@ def make_context(mod):
     return (mod, importlib.import_module("trie.smt"), importlib.import_module("trie.exceptions"))
 
 
+def do_reject(tree, proof, ev, n, ctx, ksize, default):
+    from . import badargs as ba
+
+    mod, smt, exc = ctx
+    e, arg, kind = ev["entry"], ev["arg"], ev["kind"]
+    good = bytes([n % 256]) * ksize
+
+    def badkey():
+        return {"notbytes": ba.pick(ba.NOT_BYTES, n), "short": good[:-1], "long": good + b"\x00", "empty": b""}[kind]
+
+    def badlist(depth):
+        return {"short": [b"\x00" * 32] * (depth - 1), "long": [b"\x00" * 32] * (depth + 1)}[kind]
+    try:
+        if e in ("get", "exists", "getitem", "contains", "branch", "delete", "delitem"):
+            k = badkey()
+            if e == "get":
+                tree.get(k)
+            elif e == "exists":
+                tree.exists(k)
+            elif e == "getitem":
+                tree[k]
+            elif e == "contains":
+                k in tree
+            elif e == "branch":
+                tree.branch(k)
+            elif e == "delete":
+                tree.delete(k)
+            else:
+                del tree[k]
+        elif e in ("set", "setitem"):
+            k, v = (badkey(), b"v") if arg == "key" else (good, ba.pick(ba.NOT_BYTES, n))
+            if e == "set":
+                tree.set(k, v)
+            else:
+                tree[k] = v
+        elif e == "constructor":
+            smt.SparseMerkleTree(key_size=0 if kind == "zero" else 33)
+        elif e == "from_db":
+            r = {"notbytes": ba.pick(ba.NOT_BYTES, n), "short": tree.root_hash[:-1], "long": tree.root_hash + b"\x00"}[kind]
+            smt.SparseMerkleTree.from_db(tree.db, r, key_size=ksize, default=default)
+        elif e == "calc_root":
+            if arg == "key":
+                smt.calc_root(ba.pick(ba.NOT_BYTES, n), b"v", [b"\x00" * 32] * (ksize * 8))
+            elif arg == "value":
+                smt.calc_root(good, ba.pick(ba.NOT_BYTES, n), [b"\x00" * 32] * (ksize * 8))
+            else:
+                smt.calc_root(good, b"v", badlist(ksize * 8))
+        elif e == "proof_constructor":
+            if arg == "key":
+                smt.SparseMerkleProof(ba.pick(ba.NOT_BYTES, n), b"v", [b"\x00" * 32] * (ksize * 8))
+            elif arg == "value":
+                smt.SparseMerkleProof(good, ba.pick(ba.NOT_BYTES, n), [b"\x00" * 32] * (ksize * 8))
+            else:
+                smt.SparseMerkleProof(good, b"v", badlist(ksize * 8))
+        elif e == "proof_update":
+            proof.update(badkey(), b"v", [b"\x00" * 32] * (ksize * 8))
+        else:
+            return "harness-unknown-entry", e
+    except Exception as x:  # noqa
+        if ba.exc_matches(x, ev["exc"], exc):
+            return "rejected", type(x).__name__
+        return "wrongexc", type(x).__name__ + ": " + str(x)[:100]
+    return "accepted", None
+
+
 def proof_state(p):
     return (p.value, tuple(p.branch), p.root_hash)
 
 
 def replay_line(obj, ctx, opts):
+    from .common import c18_relabel
+
+    return c18_relabel(obj, replay_one(obj, ctx, opts), lambda o: replay_one(o, ctx, opts))
+
+
+def replay_one(obj, ctx, opts):
     mod, smt, exc = ctx
     h, st = obj["h"], obj["st"]
     out = []
@@ -62,6 +133,18 @@ def replay_line(obj, ctx, opts):
     proof = None
     for idx, ev in enumerate(h[1:]):
         a = ev["a"]
+        if a == "reject":
+            b_db, b_root = dict(tree.db), tree.root_hash
+            b_proof = proof_state(proof) if proof is not None else None
+            verdict, detail = do_reject(tree, proof, ev, idx, ctx, ksize, default)
+            what = {"entry": ev["entry"], "arg": ev["arg"], "kind": ev["kind"], "detail": detail}
+            if verdict == "accepted":
+                out.append(("C18", "ill-formed-call-not-refused", what))
+            elif verdict != "rejected":
+                out.append(("C18", "ill-formed-call-refused-with-the-wrong-exception", dict(what, expected=ev["exc"])))
+            if tree.db != b_db or tree.root_hash != b_root or (proof is not None and proof_state(proof) != b_proof):
+                out.append(("C18", "refused-call-changed-state", what))
+            continue
         key = bits_to_bytes(ev["k"])
         if a == "track":
             try:
@@ -171,6 +254,8 @@ def stats(obj, ctx):
     h = obj["h"]
     if tuple(h[0]["dflt"]) != (0, 0):
         tags.append("non-blank-default")
+    if any(e["a"] == "reject" for e in h[1:-1]):
+        tags.append("rejected-call-in-mid-history")
     for e in h[1:]:
         if e["a"] in ("set", "delete"):
             if e.get("short"):
